@@ -424,4 +424,32 @@ example : stripInstructions exComposite =
     [255, 255, 0, 0, 0, 0, 1, 244, 1, 244, 0, 0xA3, 0, 7, 0, 1, 0, 2, 64, 0, 1, 0, 255, 0, 64, 0,
      0, 2, 0, 9, 5, 6] := by decide
 
+
+/-! ### instruction stripping (byte level) -/
+
+/-- stripping hinting instructions never grows a glyph (simple or composite, well-formed or not) -/
+theorem C12_strip_never_grows (g : Bytes) : (stripInstructions g).length ≤ g.length :=
+  stripInstructions_length_le g
+
+/-- a simple glyph with a non-empty, in-range hinting program keeps its header, bbox and endPts
+    bytes and its flag/coordinate bytes exactly; only the program is removed … -/
+theorem C12_strip_simple_keeps_outline_bytes (g : Bytes) (h12 : 12 ≤ g.length) (hs : u16At g 0 < 32768)
+    (hil : u16At g (10 + u16At g 0 * 2) ≠ 0)
+    (hin : 10 + u16At g 0 * 2 + 2 + u16At g (10 + u16At g 0 * 2) ≤ g.length) :
+    stripInstructions g = g.take (10 + u16At g 0 * 2) ++ [0, 0] ++
+      g.drop (10 + u16At g 0 * 2 + 2 + u16At g (10 + u16At g 0 * 2)) :=
+  stripInstructions_simple g h12 hs hil hin
+
+/-- … and the stripped glyph declares instructionLength 0 (so a reader finds the flags right
+    after it) -/
+theorem C12_strip_simple_instruction_length_zero (g : Bytes) (h12 : 12 ≤ g.length) (hs : u16At g 0 < 32768)
+    (hil : u16At g (10 + u16At g 0 * 2) ≠ 0)
+    (hin : 10 + u16At g 0 * 2 + 2 + u16At g (10 + u16At g 0 * 2) ≤ g.length) :
+    u16At (stripInstructions g) (10 + u16At g 0 * 2) = 0 :=
+  stripInstructions_simple_instrLen g h12 hs hil hin
+
+/-- one contour, endPts [2], a 3-byte program, three flag bytes + coordinates -/
+example : stripInstructions [0, 1, 0, 0, 0, 0, 0, 9, 0, 9, 0, 2, 0, 3, 176, 177, 178, 1, 1, 1, 5, 6, 7, 8, 9, 9]
+    = [0, 1, 0, 0, 0, 0, 0, 9, 0, 9, 0, 2, 0, 0, 1, 1, 1, 5, 6, 7, 8, 9, 9] := by decide
+
 end OxiVerif.C12
